@@ -308,6 +308,9 @@ struct driver : iface
         ll->responders_.clear();
         for ( unsigned channel = 37; channel != 40; ++channel )
             ll->respond_to( channel, pdu );
+        // a new connection starts with SN = NESN = 0 on both sides (radio_impl::run() would do that)
+        ll->central_sequence_number_    = 0;
+        ll->central_ne_sequence_number_ = 0;
         step();
         ll->responders_.clear();
 
